@@ -284,6 +284,83 @@ func checkC07(c *Ctx) {
 		}
 	})
 	c.Exhaustive = stride == 1
+	// concurrent proposals: a proposer that has not polled the running batch's proposal yet is allowed by
+	// the API to propose; its proposal lands in the middle of the running batch and must not harm it
+	{
+		cw, err := newC07World(c.Seed*79, 3, 2)
+		if err != nil {
+			c.Inconclusive("world: %v", err)
+		} else {
+			for _, s1 := range sets {
+				for _, perm := range permutations(s1) {
+					for pos := 0; pos < 2 && pos <= len(perm); pos++ {
+						// node 2 lags; its own answer (if any) can only come after it caught up, i.e. after its proposal
+						ok := true
+						for i := 0; i < pos; i++ {
+							if perm[i] == 2 {
+								ok = false
+							}
+						}
+						if !ok {
+							continue
+						}
+						cw.reset()
+						w := cw.ce.W
+						wit := map[string]interface{}{"n": 3, "t": 2, "family": "lagging proposer", "answers": perm, "second_proposal_after_answers": pos}
+						pollOthers := func() {
+							for round := 0; round < 20; round++ {
+								for _, nd := range w.Nodes[:2] {
+									_, _ = nd.PollStep(0)
+								}
+							}
+						}
+						if err := w.ProposeSign(0, cw.ce.Round, map[string][]byte{"doc-1": []byte("payload 1")}, nil); err != nil {
+							c.Inconclusive("propose: %v", err)
+							continue
+						}
+						prop := w.Board.All()[w.Board.Len()-1]
+						bid, msgs, _ := ExpandProposal(prop.Data)
+						expected := map[string]map[string]ExpectedMsg{bid: {}}
+						for _, m := range msgs {
+							expected[bid][m.ID] = m
+						}
+						pollOthers()
+						answer := func(j int) {
+							nd := w.Nodes[j]
+							for int(nd.Offset()) < w.Board.Len() {
+								_, _ = nd.PollStep(0)
+							}
+							for _, o := range w.PendingOps(nd) {
+								if string(o.Type) == OpSigning && opBatchID(o) == bid {
+									_ = w.HandleOp(nd, o)
+								}
+							}
+						}
+						for i := 0; i < pos; i++ {
+							answer(perm[i])
+							pollOthers()
+						}
+						// node 2 has seen nothing of batch 1 and proposes batch 2
+						if err := w.ProposeSign(2, cw.ce.Round, map[string][]byte{"doc-2": []byte("payload 2")}, nil); err != nil {
+							c.Violate("C07/schedule-cannot-proceed", "lagging proposer refused by its own API: "+err.Error(), wit)
+							continue
+						}
+						pollOthers()
+						for i := pos; i < len(perm); i++ {
+							answer(perm[i])
+							pollOthers()
+						}
+						cw.pollAll(nil)
+						c.Eval(1)
+						c.Add("lagging_proposer_orders_played", 1)
+						c.Distinct(fmt.Sprintf("n3t2|lagging|%v|%d", perm, pos))
+						cw.judge(c, map[int]string{1: bid}, expected, map[int]int{1: len(perm)}, wit)
+					}
+				}
+			}
+			cw.ce.Close()
+		}
+	}
 	// sampled part
 	cfgs := []ntCase{{2, 2}, {3, 3}, {4, 2}, {4, 3}, {5, 3}}
 	per := c.Pick(12, 400)
@@ -349,4 +426,18 @@ func checkC07(c *Ctx) {
 		c.Add("sampled_schedules", per)
 	})
 	_ = sort.Strings
+}
+
+func permutations(a []int) [][]int {
+	if len(a) <= 1 {
+		return [][]int{append([]int{}, a...)}
+	}
+	var out [][]int
+	for i := range a {
+		rest := append(append([]int{}, a[:i]...), a[i+1:]...)
+		for _, p := range permutations(rest) {
+			out = append(out, append([]int{a[i]}, p...))
+		}
+	}
+	return out
 }
